@@ -275,3 +275,107 @@ def model_number_obs(outcome_value):
         return 'float', dims
     x = simp(x)
     return Fraction(x), dims
+
+
+def default_field(ex, ty):
+    """a neutral value for a struct field the harness does not care about, chosen from its declared type"""
+    t = ty.replace('std::collections::', '').replace('std::cell::', '').strip()
+    if t.startswith(('BTreeMap', 'BTreeSet', 'HashMap', 'HashSet')):
+        return MapV()
+    if t.startswith('Vec<'):
+        return Arr([])
+    if t.startswith(('Cell<', 'RefCell<')):
+        inner = t[t.index('<') + 1:-1]
+        return Struct('Cell', [default_field(ex, inner)])
+    if t.startswith('Option<'):
+        return none(ex)
+    if t in ('usize', 'u8', 'u16', 'u32', 'u64', 'i8', 'i16', 'i32', 'i64', 'isize'):
+        return 0
+    if t == 'bool':
+        return False
+    if t == 'String':
+        return ''
+    return Opaque('field:' + t)
+
+
+def make_struct(ex, name, given):
+    """Struct `name` with the fields in `given`; every other field gets a neutral default from its declared type"""
+    fields = ex.prog.src.structs[name]
+    types = ex.prog.src.struct_types.get(name, [None] * len(fields))
+    vals = []
+    for f, t in zip(fields, types):
+        vals.append(given[f] if f in given else default_field(ex, t or ''))
+    return Struct(name, vals)
+
+
+# ---------------------------------------------------------------------------------------------------------------
+# reading a printed numeral back (exact fractions): used by judges that replay BigRat::to_string natively
+
+_DIG = '0123456789abcdefghijklmnopqrstuvwxyz'
+
+
+def read_numeral(text, base, sci):
+    """-> dict(value Fraction (magnitude incl. exponent), neg, frac_len, block (digits or None), period_text, exp) or None"""
+    import re as _r
+    t = text
+    exp = 0
+    if sci:
+        t, sep, e = t.rpartition('e')
+        if not sep or not _r.match(r'^-?\d+$', e):
+            return None
+        exp = int(e)
+    m = _r.match(r'^(-?)([0-9a-z]+)(?:\.([0-9a-z]*))?(?:\[([0-9a-z]+)(?:, period (\d+))?\]\.\.\.)?$', t)
+    if not m:
+        return None
+    neg, ip, fp, blk, ptxt = m.group(1) == '-', m.group(2), m.group(3) or '', m.group(4), m.group(5)
+    for c in ip + fp + (blk or ''):
+        if _DIG.index(c) >= base:
+            return None
+    val_ = Fraction(0)
+    for c in ip:
+        val_ = val_ * base + _DIG.index(c)
+    scale = Fraction(1)
+    for c in fp:
+        scale /= base
+        val_ += _DIG.index(c) * scale
+    if blk:
+        b = 0
+        for c in blk:
+            b = b * base + _DIG.index(c)
+        val_ += Fraction(b, base ** len(blk) - 1) * scale
+    return {'value': val_ * Fraction(base) ** exp, 'neg': neg, 'frac_len': len(fp), 'block': blk,
+            'period_text': int(ptxt) if ptxt else None, 'ulp': scale * Fraction(base) ** exp, 'exp': exp}
+
+
+def numeral_problem(text, exact, v, base, sci=False):
+    """what is wrong with `text` as a numeral for the exact value v (None = nothing): an exact or recurring numeral denotes v;
+    an approximate one is v truncated toward zero at its last digit"""
+    v = Fraction(v)
+    cands = [read_numeral(text, base, sci)] if sci is not None else [read_numeral(text, base, False), read_numeral(text, base, True)]
+    cands = [c for c in cands if c is not None]
+    if not cands:
+        return 'not a base-%d numeral: %r' % (base, text)
+    probs = []
+    for p in cands:
+        pr = None
+        if p['neg'] and v >= 0 or (not p['neg'] and v < 0 and p['value'] != 0):
+            pr = 'sign of %r does not match the value %s' % (text, v)
+        elif p['block'] is not None:
+            if p['value'] != abs(v):
+                pr = 'recurring numeral %r denotes %s, the value is %s' % (text, p['value'], abs(v))
+            elif p['period_text'] is not None and p['period_text'] != len(p['block']):
+                pr = 'numeral %r states period %d for a block of %d digits' % (text, p['period_text'], len(p['block']))
+            elif not exact:
+                pr = 'recurring numeral %r is exact but flagged approximate' % text
+        elif exact:
+            if p['value'] != abs(v):
+                pr = 'numeral %r is flagged exact and denotes %s, the value is %s' % (text, p['value'], abs(v))
+        else:
+            if not (p['value'] <= abs(v) < p['value'] + p['ulp']):
+                pr = 'approximate numeral %r denotes %s, the value %s is not within one unit of its last digit' % (text, p['value'], abs(v))
+            elif p['value'] == abs(v):
+                pr = 'numeral %r denotes the value %s exactly but is flagged approximate' % (text, abs(v))
+        if pr is None:
+            return None
+        probs.append(pr)
+    return probs[0]
